@@ -203,6 +203,31 @@ func run() int {
 		work = work[1:]
 		c := db.Contracts[k]
 		fn := funcIndex[k]
+		if fn == nil && len(c.SpecVars) > 0 || strings.Contains(k, ".speclemma.") {
+			// statement-level lemma: no code
+			pkgPath := k[:strings.Index(k, ".speclemma.")]
+			var anyFn *ssa.Function
+			var tpkg *types.Package
+			for _, sp := range l.prog.AllPackages() {
+				if sp.Pkg.Path() == pkgPath {
+					tpkg = sp.Pkg
+					anyFn = sp.Func("init")
+				}
+			}
+			ex := &Exec{prog: l.prog, db: db, fset: l.prog.Fset, maxPaths: 10, loopCache: map[*ssa.Function]*LoopInfo{}, usedUnknown: map[string]bool{}, usedContracts: map[string]bool{}, prop: prop}
+			curLemmaKey = k
+			ex.verifySpecLemma(c, tpkg, anyFn)
+			curLemmaKey = ""
+			rep.Funcs = append(rep.Funcs, FuncInfo{Key: k, Paths: len(ex.paths), Mode: c.Mode, Lemma: true, ExitPaths: ex.exitPaths})
+			for _, e := range ex.errors {
+				rep.EngineErrors = append(rep.EngineErrors, EngineErr{Fn: k, Msg: e, Props: c.propList()})
+			}
+			for _, p := range ex.paths {
+				p.Fn = k
+			}
+			allPaths = append(allPaths, ex.paths...)
+			continue
+		}
 		if fn == nil {
 			rep.Missing = append(rep.Missing, MissingFn{Key: k, Props: c.propList(), File: c.File})
 			continue
@@ -252,10 +277,15 @@ func run() int {
 			continue
 		}
 		got, ok := globalInitLiteral(l.prog, gi.Name)
+		want := gi.Lit
+		if gi.IsInts {
+			got, ok = globalInitInts(l.prog, gi.Name)
+			want = strings.Join(gi.Ints, ",")
+		}
 		ck := &Check{Name: gi.Name + "/init#literal", Class: "init", Fn: gi.Name, Props: gi.Props,
-			Info: fmt.Sprintf("package initialiser assigns the literal %q", gi.Lit), Src: gi.Src, Goal: "false"}
+			Info: fmt.Sprintf("package initialiser assigns the literal %q", want), Src: gi.Src, Goal: "false"}
 		st := "failed"
-		if ok && got == gi.Lit {
+		if ok && got == want {
 			st = "trivial"
 			ck.Trivial = true
 		}
@@ -343,6 +373,86 @@ func constStringOf(v ssa.Value, depth int) (string, bool) {
 		}
 	case *ssa.Slice:
 		return constStringOf(x.X, depth+1)
+	}
+	return "", false
+}
+
+// globalInitInts: X = []T{c0, c1, ...} with integer constants; returns "c0,c1,...".
+func globalInitInts(prog *ssa.Program, qname string) (string, bool) {
+	i := strings.LastIndex(qname, ".")
+	if i < 0 {
+		return "", false
+	}
+	pkgPath, name := qname[:i], qname[i+1:]
+	for _, p := range prog.AllPackages() {
+		if p.Pkg.Path() != pkgPath {
+			continue
+		}
+		g, ok := p.Members[name].(*ssa.Global)
+		if !ok {
+			return "", false
+		}
+		init := p.Func("init")
+		if init == nil {
+			return "", false
+		}
+		for fn := range ssautil.AllFunctions(prog) {
+			if fn == init || fn.Pkg != p {
+				continue
+			}
+			for _, b := range fn.Blocks {
+				for _, ins := range b.Instrs {
+					if st, ok := ins.(*ssa.Store); ok && st.Addr == g {
+						return "", false
+					}
+				}
+			}
+		}
+		for _, b := range init.Blocks {
+			for _, ins := range b.Instrs {
+				st, ok := ins.(*ssa.Store)
+				if !ok || st.Addr != g {
+					continue
+				}
+				sl, ok := st.Val.(*ssa.Slice)
+				if !ok {
+					return "", false
+				}
+				arr, ok := sl.X.(*ssa.Alloc)
+				if !ok {
+					return "", false
+				}
+				vals := map[int64]string{}
+				for _, r := range *arr.Referrers() {
+					ia, ok := r.(*ssa.IndexAddr)
+					if !ok {
+						continue
+					}
+					idx, ok := ia.Index.(*ssa.Const)
+					if !ok {
+						return "", false
+					}
+					for _, r2 := range *ia.Referrers() {
+						if s2, ok := r2.(*ssa.Store); ok && s2.Addr == ia {
+							c, ok := s2.Val.(*ssa.Const)
+							if !ok || c.Value == nil {
+								return "", false
+							}
+							vals[idx.Int64()] = c.Value.ExactString()
+						}
+					}
+				}
+				var out []string
+				for k := int64(0); k < int64(len(vals)); k++ {
+					v, ok := vals[k]
+					if !ok {
+						return "", false
+					}
+					out = append(out, v)
+				}
+				return strings.Join(out, ","), true
+			}
+		}
 	}
 	return "", false
 }
